@@ -5,6 +5,8 @@ import json
 import os
 
 _D = os.path.join(os.path.dirname(os.path.dirname(os.path.abspath(__file__))), 'claims')
-CLAIMED = {fn[:-5]: json.load(open(os.path.join(_D, fn))) for fn in sorted(os.listdir(_D)) if fn.endswith('.json')}
+# a claim is published only once the orchestrator has reviewed it and its check passes on /repo (claims/READY)
+_READY = set(open(os.path.join(_D, 'READY')).read().split()) if os.path.exists(os.path.join(_D, 'READY')) else set()
+CLAIMED = {fn[:-5]: json.load(open(os.path.join(_D, fn))) for fn in sorted(os.listdir(_D)) if fn.endswith('.json') and fn[:-5] in _READY}
 NOT_YET = 'check not built yet (model and theorem planned in DESIGN.md §5); not claimed'
 NOT_APPLICABLE = {}
